@@ -232,7 +232,7 @@ def handle1 (args : List String) : String :=
        let yrun := ((getShape a "y").getD []).filterMap Shape.Dim.nat?
        let preluBad := getBool a "prelu1" && Shape.specBroadcast xrun yrun != some xrun
        fireIf (Linalg.expandRemovableConst (getShape a "x") (getShape a "y") e)
-         (!Linalg.expandRankChanges xr yr e.length && getS a "attrs" != "1" && !preluBad)
+         (getS a "attrs" != "1" && !preluBad)
      | none => "badline")
   | _ => "badline"
 
